@@ -4,6 +4,8 @@
 # http://docs.glueviz.org/en/stable/developer_guide/data.html and transparently
 # applying changes.
 
+import numpy as np
+
 from glue.core.hub import HubListener
 from glue.core.data import BaseCartesianData
 from glue.core.message import NumericalDataChangedMessage
@@ -136,8 +138,17 @@ class IndexedData(BaseCartesianData, HubListener):
         return self._original_data.get_kind(cid)
 
     def _to_original_view(self, view):
-        if view is None:
-            view = [slice(None)] * self.ndim
+        # NOTE: the view can be anything that is a valid index for an array
+        # with the shape of this dataset, so we first express it as one item
+        # per dimension of this dataset.
+        if view is None or view is Ellipsis:
+            view = ()
+        elif isinstance(view, np.ndarray) and view.dtype.kind == 'b' and view.ndim > 0:
+            # A boolean mask is equivalent to the index arrays of its True values
+            view = np.nonzero(view)
+        elif not isinstance(view, (tuple, list)):
+            view = (view,)
+        view = tuple(view) + (slice(None),) * (self.ndim - len(view))
         original_view = list(self.indices)
         idim_reduced = 0
         for idim in range(self._original_data.ndim):
